@@ -223,6 +223,9 @@ func TestC08(t *testing.T) {
 		}
 	})
 
+	if t.Failed() {
+		return // rapid refuses a *testing.T that has already failed
+	}
 	// Part 2 (generated).
 	cliEvery := envInt("VERIF_C08_CLI_EVERY", 40)
 	nGen := 0
